@@ -3,6 +3,7 @@ package h
 import (
 	"github.com/xjslang/xjs/ast"
 	"github.com/xjslang/xjs/parser"
+	"github.com/xjslang/xjs/token"
 	"github.com/xjslang/xjs/zzverif/sym"
 )
 
@@ -47,6 +48,107 @@ func ZZH16aNesting() {
 		case NestFunction:
 			// directly inside a function body the innermost context is the body,
 			// which is both a function and a block: either answer is accepted
+			sym.Assert(e.ctx == parser.FunctionContext || e.ctx == parser.BlockContext, "context-function-inside-function-body")
+		}
+	}
+	sym.Assert(p.CurrentContext() == parser.GlobalContext && !p.IsInFunction(), "context-global-after-parse")
+	sym.Cover("end")
+}
+
+// ZZH16cDepth: one parse from a context stack preset to depth D (the state
+// inside D-1 enclosing constructs): the queries inside nested blocks and
+// functions are right relative to the preset, and the stack is restored
+// entry for entry afterwards - for small and large D (induction over depth).
+func ZZH16cDepth() {
+	depths := []int{1, 2, 3, 15, 16, 17, 31, 32, 33, 63, 64, 65, 200}
+	D := depths[sym.Choose("depth", len(depths))]
+	presetFunc := sym.Choose("presetfunction", 2) == 1 // is a function among the enclosing constructs?
+	stack := []parser.ContextType{parser.GlobalContext}
+	for i := 1; i < D; i++ {
+		if presetFunc && i == 1 {
+			stack = append(stack, parser.FunctionContext)
+		} else {
+			stack = append(stack, parser.BlockContext)
+		}
+	}
+	inFuncBase := presetFunc && D > 1
+	g, s := GenProgram()
+	var log []ctxLog
+	pb := parser.NewBuilder(s.LexerBuilder())
+	pb.UseStatementInterceptor(func(p *parser.Parser, next func() ast.Statement) ast.Statement {
+		log = append(log, ctxLog{p.CurrentToken.End.Column, p.IsInFunction(), p.CurrentContext(), 0})
+		return next()
+	})
+	p := pb.Build("")
+	parser.ZZSetContextStack(p, stack)
+	_, err := p.ParseProgram()
+	sym.Observe("run", s.Types(), D, presetFunc)
+	sym.Assert(err == nil, "valid-program-accepted")
+	for _, e := range log {
+		if e.tok < 0 || e.tok >= len(g.Toks) {
+			continue
+		}
+		sym.Assert(e.inFunc == (inFuncBase || g.InFunc[e.tok]), "is-in-function-relative-to-preset-depth")
+		switch g.Nest[e.tok] {
+		case NestGlobal:
+			sym.Assert(e.ctx == stack[D-1], "context-is-the-preset-top-outside-nested-constructs")
+		case NestBlock:
+			sym.Assert(e.ctx == parser.BlockContext, "context-block-inside-block")
+		case NestFunction:
+			sym.Assert(e.ctx == parser.FunctionContext || e.ctx == parser.BlockContext, "context-function-inside-function-body")
+		}
+	}
+	sym.Assert(parser.ZZContextDepth(p) == D, "context-stack-depth-restored")
+	if parser.ZZContextDepth(p) == D {
+		for i := 0; i < D; i++ {
+			sym.Assert(parser.ZZContextAt(p, i) == stack[i], "context-stack-restored-entry-for-entry")
+		}
+	}
+	sym.Cover("end")
+}
+
+// ZZH16dInnerParser: a second parser that lives inside an interceptor call of
+// the first one (a plugin parsing a snippet) does not disturb the outer
+// parser's context answers.
+func ZZH16dInnerParser() {
+	g, s := GenProgram()
+	sym.Observe("script", s.Types())
+	inner := [][]token.Type{
+		{token.LBRACE, token.LBRACE, token.IDENT, token.RBRACE, token.RBRACE},
+		{token.FUNCTION, token.IDENT, token.LPAREN, token.RPAREN, token.LBRACE, token.IDENT, token.RBRACE},
+		{token.LBRACE, token.IDENT},
+	}[sym.Choose("inner", 3)]
+	var log []ctxLog
+	calls := 0
+	at := sym.Choose("when", 3) // which interceptor call starts the inner parse
+	pb := parser.NewBuilder(s.LexerBuilder())
+	pb.UseStatementInterceptor(func(p *parser.Parser, next func() ast.Statement) ast.Statement {
+		if calls == at {
+			is := &Script{EOF: symTok(token.EOF, "")}
+			for _, t := range inner {
+				is.Toks = append(is.Toks, symTok(t, Lexeme(t)))
+			}
+			ip := parser.NewBuilder(is.LexerBuilder()).WithTolerantMode(true).Build("")
+			ip.ParseProgram()
+		}
+		calls++
+		log = append(log, ctxLog{p.CurrentToken.End.Column, p.IsInFunction(), p.CurrentContext(), 0})
+		return next()
+	})
+	p := pb.Build("")
+	_, err := p.ParseProgram()
+	sym.Assert(err == nil, "valid-program-accepted")
+	for _, e := range log {
+		if e.tok < 0 || e.tok >= len(g.Toks) {
+			continue
+		}
+		sym.Assert(e.inFunc == g.InFunc[e.tok], "is-in-function-matches-nesting")
+		switch g.Nest[e.tok] {
+		case NestGlobal:
+			sym.Assert(e.ctx == parser.GlobalContext, "context-global-at-top-level")
+		case NestBlock:
+			sym.Assert(e.ctx == parser.BlockContext, "context-block-inside-block")
+		case NestFunction:
 			sym.Assert(e.ctx == parser.FunctionContext || e.ctx == parser.BlockContext, "context-function-inside-function-body")
 		}
 	}
